@@ -3,7 +3,7 @@
 //    measurement window, the largest single request, the peak of live bytes and the number of
 //    requests, and refuses (std::bad_alloc) requests above a cap so that an unjustified huge
 //    request fails fast instead of exhausting the machine;
-//  * a per-operation wall-clock watchdog (VH_WATCHDOG seconds, default 20): an operation that
+//  * a per-operation watchdog (VH_WATCHDOG seconds of CPU time, default 20; wall-clock backstop 15x): an operation that
 //    does not return is reported on stderr as `ERROR: watchdog: …` and the process exits 124 —
 //    the engine attributes that to the operation being executed;
 //  * a SIGSEGV/SIGBUS reporter (non-sanitizer builds) that says whether the faulting address
@@ -12,6 +12,7 @@
 #include <execinfo.h>
 #include <malloc.h>
 #include <signal.h>
+#include <sys/time.h>
 #include <unistd.h>
 
 #include <fstream>
@@ -167,7 +168,7 @@ static void on_alarm(int) {
   putnum(static_cast<unsigned long>(g_line), 10);
   put(" exceeded ");
   putnum(static_cast<unsigned long>(g_watch), 10);
-  put(" s wall clock (decoder does not terminate)\n");
+  put(" s of CPU time (or 15x that of wall clock): decoder does not terminate\n");
   _exit(124);
 }
 #if !defined(__SANITIZE_ADDRESS__) && !defined(__SANITIZE_THREAD__)
@@ -202,6 +203,7 @@ int main(int argc, char **argv) {
   if (!proto) return 2;
   if (const char *w = getenv("VH_WATCHDOG")) g_watch = atoi(w) > 0 ? atoi(w) : g_watch;
   signal(SIGALRM, on_alarm);
+  signal(SIGPROF, on_alarm);
   {
     void *warm[4];
     backtrace(warm, 4);  // loads the unwinder now (its first call allocates)
@@ -238,9 +240,16 @@ int main(int argc, char **argv) {
       fputs("bad-op\n", proto);
       continue;
     }
-    alarm(static_cast<unsigned>(g_watch));
+    // CPU-time watchdog (immune to stalls of a loaded machine) + a 15x longer wall-clock backstop
+    struct itimerval tv;
+    memset(&tv, 0, sizeof tv);
+    tv.it_value.tv_sec = g_watch;
+    setitimer(ITIMER_PROF, &tv, nullptr);
+    alarm(static_cast<unsigned>(g_watch) * 15);
     std::string out = it->second(a);
     alarm(0);
+    tv.it_value.tv_sec = 0;
+    setitimer(ITIMER_PROF, &tv, nullptr);
     fputs(out.c_str(), proto);
     fputc('\n', proto);
     fflush(proto);
